@@ -1,5 +1,63 @@
+import NessaiVerif.Model.OrderedSamples
 import NessaiVerif.Driver.Parse
-/- stub: replaced by the owner of this area -/
+/-
+`os run <strict 0/1> <replAll 0/1> <op>;<op>;…` — runs an op sequence from a fresh store and prints the
+state after every op, separated by `|`.  Ops: `init [key:id,…]`, `add [key:id,…]`, `thr k`, `remove`, `finalise`.
+State rendering: `keys=[..] ids=[..] rows=[..] live=[..]|none nested=[..] ret=n|-` or `err=<kind>` (state unchanged).
+-/
 namespace NessaiVerif.Driver.Ordered
-def handle (_toks : List String) : String := "bad-op"
+open NessaiVerif NessaiVerif.Parse NessaiVerif.Ordered
+
+def parseSmp? (s : String) : Option (Smp × Nat) :=
+  match s.splitOn ":" with
+  | [k, i] => do
+      let k ← parseInt? k
+      let i ← parseNat? i
+      some ({ key := k, id := i }, i)
+  | [k, i, r] => do
+      let k ← parseInt? k
+      let i ← parseNat? i
+      let r ← parseNat? r
+      some ({ key := k, id := i }, r)
+  | _ => none
+
+def parseOp? (s : String) : Option Op :=
+  match (s.splitOn " ").filter (· ≠ "") with
+  | ["init", b] => (parseList? parseSmp? b).map Op.init
+  | ["add", b] => (parseList? parseSmp? b).map Op.add
+  | ["thr", t] => (parseInt? t).map Op.thr
+  | ["remove"] => some Op.remove
+  | ["finalise"] => some Op.finalise
+  | _ => none
+
+def showErr : Err → String
+  | .typeErr => "err=type"
+  | .valueErr => "err=value"
+  | .runtimeErr => "err=runtime"
+
+def showState (s : OS) (ret : Option Nat) : String :=
+  let smp := s.samples.getD []
+  s!"keys={showList toString (smp.map (·.key))} ids={showList toString (smp.map (·.id))} " ++
+  s!"rows={showList toString s.rows} live={showOpt (showList toString) s.live} " ++
+  s!"nested={showList toString s.nested} ret={showOpt toString ret}"
+
+def runOps (s : OS) : List Op → List String
+  | [] => []
+  | op :: ops =>
+    match step s op with
+    | .ok (s', r) => showState s' r :: runOps s' ops
+    | .error e => showErr e :: runOps s ops
+
+def handle (toks : List String) : String :=
+  match toks with
+  | "run" :: st :: ra :: rest =>
+    match parseBool? st, parseBool? ra with
+    | some st, some ra =>
+      let opsStr := " ".intercalate rest
+      match (opsStr.splitOn ";").mapM parseOp? with
+      | some ops => "|".intercalate (runOps { strict := st, replAll := ra } ops)
+      | none => "bad-op"
+    | _, _ => "bad-op"
+  | _ => "bad-op"
+
 end NessaiVerif.Driver.Ordered
